@@ -14,7 +14,7 @@ import (
 // replaced by the callee's contract).
 
 //@ theorem C03.tagRoundtrip
-//@   props C03
+//@   props C03 C11
 //@   requires forall j int :: 0 <= j && j < len(name) ==> name[j] != ':'
 //@   requires dynbyte(val) || dynint(val) || dynfloat(val) || dynstr(val) || dynbytes(val)
 //@   requires dynbytes(val) ==> forall j int :: 0 <= j && j < len(asbytes(val)) ==> 0 <= asbytes(val)[j] && asbytes(val)[j] <= 255
@@ -139,7 +139,7 @@ func thmRecordRoundTrip(s *SAM, key string) {
 }
 
 //@ theorem C03.readerRoundtrip
-//@   props C03
+//@   props C03 C11
 //@   requires s != nil
 //@   requires len(s.Qname) > 0 ==> s.Qname[0] != '@'
 //@   requires cleanStr(s.Qname) && cleanStr(s.Rname) && cleanStr(s.Cigar) && cleanStr(s.Rnext) && cleanStr(s.Seq) && cleanStr(s.Qual)
